@@ -21,6 +21,29 @@ CLAIMS = {
              "and buckets are what they seem. Run-time behaviour of dict/set equality is not modelled.",
         technique="AST option-set extraction + exhaustive decision-table comparison; CFG dominance; taint (def-use) closure",
         design="2/C11"),
+    "C09": dict(
+        text="Decides structural necessary conditions of a correct hash join, extracted by dataflow roles (never by "
+             "spelling) from inner_join and compared across the three variants: key pairing/projection/probing symmetry, "
+             "by-name keys resolved through exact stored-name lookup, index loop over all right rows and probe loop over all "
+             "left rows with ascending buckets emitted in stored order (left-major/right-minor), typed buffer discipline "
+             "(LEFT buffer <- left-row value, RIGHT <- right-row value, once per column per emitted row), skip policy, "
+             "wrapping under source names with inferred dtype, no set iteration / hash()/id() as data, and interprocedural "
+             "purity (no content write on self/other). The relational equation itself (which pairs are key-equal) is a "
+             "run-time value property and is NOT decided.",
+        note="A structural necessary condition is decided, not the behaviour. Trusted: role extraction (fails closed with "
+             "ANALYSIS-ERROR when the join is refactored beyond recognition), dict/tuple equality semantics at run time.",
+        technique="dataflow role extraction + typed-buffer discipline + CFG/guard analysis + effect summaries + sibling fact comparison",
+        design="2/C09"),
+    "C10": dict(
+        text="Same extraction on join and full_join plus completeness structure: no continue/break/return in the probe "
+             "loop and an `if bucket: ... else: ...` split so every left row emits at its position; unmatched rows padded "
+             "with None once per right column; full_join records the right row of every emitted pair inside the emission "
+             "loop and sweeps range(len(other)) afterwards emitting exactly the unrecorded rows (None per left column), "
+             "which gives right-table order; matched-pair block fact-equal to inner_join's (inner ⊆ left ⊆ full by "
+             "construction). Value-level multiset symmetry is NOT decided.",
+        note="A structural necessary condition is decided, not the behaviour (see C09).",
+        technique="dataflow role extraction + typed-buffer discipline per emission block + sibling fact comparison",
+        design="2/C10"),
 }
 
 PENDING = "static rules for this property are designed (DESIGN.md section 2) but not yet built in this round; not claimed yet"
